@@ -40,6 +40,14 @@ Inductive request :=
 | QKePk (b : bytes)
 | QKeRandomSk (tape : bytes)
 | QLens
+(* primitives of the OPRF suite, for validating the primitive layer of the model against the crates *)
+| QPHash (m : bytes)
+| QPHmac (k m : bytes)
+| QPExpand (prk info : bytes) (len : nat)
+| QPH2g (msg dst : bytes)
+| QPH2s (msg dst : bytes)
+| QPSmul (e s : bytes)
+| QPSinv (s : bytes)
 (* in-memory composition of a whole registration + login (no serialisation between steps) *)
 | QFlow (tape pw cred : bytes) (ctx idu ids : option bytes) (ksf : ksf_spec)
 | QFlowNoFile (tape pw cred : bytes) (ctx idu ids : option bytes) (ksf : ksf_spec)
@@ -257,6 +265,19 @@ Section Api.
     | QKePk b => fin (let* p := pk_deserialize CS b in Ok [TB (k_ser_pk K p)])
     | QKeRandomSk tape => RErr EPanic  (* per-group; answered in Concrete/Run.v *)
     | QLens => ROk [TN (h_len h); TN (o_Noe OP); TN (o_Nok OP); TN (k_Npk K); TN (k_Nsk K)]
+    | QPHash m => ROk [TB (h_hash h m)]
+    | QPHmac k m => ROk [TB (h_hmac h k m)]
+    | QPExpand prk info len =>
+        fin (let* out := of_option (hkdf_from_prk_expand h prk info len) (ELibrary LHkdfError) in Ok [TB out])
+    | QPH2g msg dst => ROk [TB (o_ser_e OP (o_h2g OP msg dst))]
+    | QPH2s msg dst => ROk [TB (o_ser_s OP (o_h2s OP msg dst))]
+    | QPSmul e s =>
+        arg 1 (of_option (o_deser_e OP e) (ELibrary (LOprfError ODeserialization))) (fun e' =>
+        arg 2 (of_option (o_deser_s OP s) (ELibrary (LOprfError ODeserialization))) (fun s' =>
+        ROk [TB (o_ser_e OP (o_mul OP e' s'))]))
+    | QPSinv s =>
+        arg 1 (of_option (o_deser_s OP s) (ELibrary (LOprfError ODeserialization))) (fun s' =>
+        ROk [TB (o_ser_s OP (o_inv OP s'))])
     | QFlow tape pw cred ctx idu ids ksf => do_flow tape pw cred ctx idu ids ksf
     | QFlowNoFile tape pw cred ctx idu ids ksf => do_flow_nofile tape pw cred ctx idu ids ksf
     | QExtSetup tape sk fp fd =>
